@@ -1,5 +1,6 @@
 import RTV.Drv.Proto
 import RTV.Model.Factory
+import RTV.Model.Conc
 import RTV.Gen.CharTables
 import RTV.Gen.Factory
 /-! Driver handlers for L9 `Factory` (C17, C02).
@@ -13,10 +14,12 @@ import RTV.Gen.Factory
       out: m:<kind>:<type>:<culture>:<options>:<serial> | none | err:ValueError | ok
   froute <repaired> <op>                                 -> cold answer of the request: m:<kind>:<type>:<culture>:<options> | err:ValueError | -
   freg <type> <culture> <type1> <culture1> ...           -> ok:<n> | err:ValueError
-  fconc <repaired> <nthreads> <sched: space separated thread ids> <thread1 requests: F-ops separated by `,`> ...
+  fconc <repaired> <sched: space separated thread ids> <thread0 requests: F-ops separated by `,` or `-`> <thread1 …> ...
+                                                         -> thread0 outs (`;`) / thread1 outs / … # <left todo counts>
+  fprec <path d|u> <ambient>                             -> effective precision
 -/
 namespace RTV.Drv
-open RTV.Py RTV.Factory
+open RTV.Py RTV.Factory RTV.Conc
 
 /-- binary search in a table sorted by key -/
 def lookupPairArr (r : Array (Nat × Nat)) (c : Nat) : Option Nat :=
@@ -111,6 +114,29 @@ def hReg : Handler
     | some l => s!"ok:{l.length}"
   | _ => "bad-op"
 
+def parseReq (f : String) : Option Req :=
+  match f.splitOn "|" with
+  | ["F", k, t, c, fb, o] => some ⟨parseNat k, parseCps t, parseOptStr c, parseBool fb, parseInt o⟩
+  | _ => none
+
+def hConc : Handler
+  | r :: sched :: threads =>
+    let cfg := drvCfg (parseBool r)
+    let reqLists : List (List Req) := threads.map fun f =>
+      if f == "-" || f == "" then [] else (f.splitOn ",").filterMap parseReq
+    let reqs : Nat → List Req := fun i => reqLists.getD i []
+    let sch := (sched.splitOn " ").filterMap fun x => x.toNat?
+    let s := runSched cfg (Sys.start [] 0 reqs) sch
+    let n := reqLists.length
+    let outs := (List.range n).map fun i => ";".intercalate ((s.threads i).outs.map showOut)
+    let left := (List.range n).map fun i => toString (s.threads i).todo.length
+    "/".intercalate outs ++ "#" ++ " ".intercalate left
+  | _ => "bad-op"
+
+def hPrec : Handler
+  | [p, a] => toString (effectivePrec (if p == "d" then .decorated else .undecorated) (parseNat a))
+  | _ => "bad-op"
+
 def dispatchFactory (op : String) (args : List String) : Option String :=
   match op with
   | "fmap" => some (hMap args)
@@ -118,6 +144,8 @@ def dispatchFactory (op : String) (args : List String) : Option String :=
   | "fhist" => some (hHist args)
   | "froute" => some (hRoute args)
   | "freg" => some (hReg args)
+  | "fconc" => some (hConc args)
+  | "fprec" => some (hPrec args)
   | _ => none
 
 end RTV.Drv
